@@ -195,8 +195,16 @@ func TestVerifC03(t *testing.T) {
 				sd := vSynthCorpus(r, nv, 12, maxLen)
 				c := NewClassifier(thr)
 				add := map[string]bool{}
+				// degenerate but legal triples (no path separator in any part): empty parts,
+				// ".", "..", parts with spaces and dots
+				odd := [][3]string{{"License", "NoVariant", ""}, {"", "NoCategory", "v.txt"}, {"License", ".", "dot.txt"}, {"License", "..", "x"}, {"Header", "a b", "c d.txt"}, {"License", "", ""}, {"X.Y", "n..m", ".hidden"}}
+				for i := range sd {
+					if i < len(odd) && r.Intn(2) == 0 {
+						sd[i].key = odd[i][0] + "/" + odd[i][1] + "/" + odd[i][2]
+					}
+				}
 				for _, d := range sd {
-					seg := strings.Split(d.key, "/")
+					seg := strings.SplitN(d.key, "/", 3)
 					c.AddContent(seg[0], seg[1], seg[2], []byte(d.text))
 					add[d.key] = true
 				}
@@ -222,6 +230,9 @@ var vNoticeTemplates = []string{
 	"# Copyright %d %s",
 	"copyright (c) %d %s",
 	"COPYRIGHT %d %s",
+	"版权 Copyright (c) %d %s",
+	"Авт. Copyright %d, %s",
+	"ⓒ© Copyright %d %s",
 }
 
 var vDateTemplates = []string{"%d-03-17", "%d-Jan-05", "%d-dec-31"}
